@@ -450,7 +450,7 @@ inline int exerciseMutant(const std::string& m, bool fileRoute, bool preserve, c
 }
 // Every sanitizer abort costs seconds (symbolisation); once the parser has been shown to crash a few times in this worker the
 // remaining mutant cases add nothing and are skipped (counted as inconclusive, never as passes).
-static int g_crashBudget = 6;
+static int g_crashBudget = 3;
 inline void xmlMutants(vh::Ctx& c, long idx, vh::Rng& r) {
     if (g_crashBudget <= 0) { c.skip("crash-budget-exhausted:parser-already-shown-to-crash"); return; }
     const bool preserve = r.coin(0.25);
@@ -500,9 +500,9 @@ inline void xmlMutants(vh::Ctx& c, long idx, vh::Rng& r) {
         // the child died while working on 'current'
         int crashed = current < next ? next : current;
         std::string shown; Json::esc(muts[crashed].substr(0, 1200), shown);
-        c.viol(std::string(WIFSIGNALED(status) && WTERMSIG(status) == SIGALRM ? "xml-mutant:parser-hang(60s):" : "xml-mutant:parser-crashed:") + (viaFile[crashed] ? "file-route" : "string-route"),
+        c.viol(std::string(WIFSIGNALED(status) && WTERMSIG(status) == SIGALRM ? "xml-mutant:parser-hang(60s)" : "xml-mutant:parser-crashed"),
                Json::obj().set("what", "the parser process died (sanitizer abort or signal) on a mutated document; see the sanitizer report of this case")
-                   .set("mutation", hows[crashed]).set("white_space_mode", preserve ? "preserve" : "condense").set("wait_status", status)
+                   .set("mutation", hows[crashed]).set("route", viaFile[crashed] ? "file" : "string").set("white_space_mode", preserve ? "preserve" : "condense").set("wait_status", status)
                    .set("signal", WIFSIGNALED(status) ? WTERMSIG(status) : 0).set("document_json", shown).set("document_length", (long)muts[crashed].size()));
         next = crashed + 1;
         if (--g_crashBudget <= 0) { c.obs("mutants-not-run-after-crash-budget", NM - next); break; }
